@@ -54,7 +54,7 @@ func c11Profiles(tier string) []Profile {
 		}}
 	pool := *p
 	pool.Name = "copyto-pool"
-	pool.Depth = d - 1
+	pool.Depth = d
 	pool.Mon = harness.Monitors{Append: true, Format: true, RefCount: true}
 	inner := p.Finish
 	pool.Finish = func(w *harness.World) {
@@ -62,7 +62,7 @@ func c11Profiles(tier string) []Profile {
 		w.CheckRefLive()
 		w.CloseAllAndCheckRefs(true)
 	}
-	return []Profile{pool.Profile(fmt.Sprintf("the same product at depth %d with reference-counting callbacks forming a recycling pool on the source (an item whose count reaches zero is scrubbed): the copy must still be complete, and after closing the source every reference CopyTo took must have been released", d-1)), p.Profile(fmt.Sprintf("every source state reached by a history of length <= %d over SetCollection(x), SetCollection(y, reverse comparator), Set/Delete/Evict, Flush, Reopen (empty stores and empty collections included) x source in {writable store, snapshot of it} x flushEvery in {-1, 0, 1, 2, 3, n, n+1}; oracles: the returned store equals the model of the source through the whole read API; for flushEvery > 0 a copy of the destination file re-opens (with the collection's comparator) to the same state, is accepted by the independent decoder, and holds exactly one item record per key over the trees of all its root records; the source, its file (byte compare and write monitor) and the snapshot are unchanged", d))}
+	return []Profile{pool.Profile(fmt.Sprintf("the same product (depth %d) with reference-counting callbacks forming a recycling pool on the source (an item whose count reaches zero is scrubbed): the copy must still be complete, and after closing the source every reference CopyTo took must have been released", d)), p.Profile(fmt.Sprintf("every source state reached by a history of length <= %d over SetCollection(x), SetCollection(y, reverse comparator), Set/Delete/Evict, Flush, Reopen (empty stores and empty collections included) x source in {writable store, snapshot of it} x flushEvery in {-1, 0, 1, 2, 3, n, n+1}; oracles: the returned store equals the model of the source through the whole read API; for flushEvery > 0 a copy of the destination file re-opens (with the collection's comparator) to the same state, is accepted by the independent decoder, and holds exactly one item record per key over the trees of all its root records; the source, its file (byte compare and write monitor) and the snapshot are unchanged", d))}
 }
 
 func init() {
